@@ -54,3 +54,6 @@ def run(repo, res, tier):
     # the lexer works with the parser's own grammar and decoder
     from .. import hookrules as _hkla
     _hkla.rule_lexer_args(repo, res)
+    # the entry points hand the caller's text to the parser as it is (no trimming, cutting or re-encoding on the way)
+    from .. import entryrules as _er3
+    _er3.rule_f1(repo, res, "__init__")
